@@ -58,6 +58,7 @@ func (s *ProtocolServer) Serve(ctx context.Context) error {
 					if err = s.p.SendMissing(id); err != nil {
 						return errors.Wrap(err, "failed to send to client")
 					}
+					continue // the client was told, keep serving
 				}
 				return errors.Wrap(err, "unable to read chunk from store")
 			}
